@@ -266,17 +266,53 @@ func ruleB3(c *Ctx) {
 			}
 			// operands that are the small arm of Int.get are int32 values held in an int64: their
 			// difference cannot wrap (the repository's own comment says "safe: int32 operands")
-			fromGet := func(v ssa.Value) bool {
-				if ex, ok := v.(*ssa.Extract); ok && ex.Index == 0 {
-					if call, ok := ex.Tuple.(*ssa.Call); ok {
-						if cal := call.Call.StaticCallee(); cal != nil && cal.Name() == "get" && cal.Signature.Recv() != nil && isNamed(cal.Signature.Recv().Type(), "starlark", "Int") {
-							return true
+			var fromGet func(v ssa.Value, depth int) bool
+			fromGet = func(v ssa.Value, depth int) bool {
+				ex, ok := v.(*ssa.Extract)
+				if !ok || depth > 3 {
+					if phi, ok := v.(*ssa.Phi); ok && depth <= 3 {
+						for _, e := range phi.Edges {
+							if k, isK := e.(*ssa.Const); isK && k.Value != nil {
+								continue
+							}
+							if !fromGet(e, depth+1) {
+								return false
+							}
 						}
+						return true
 					}
+					return false
+				}
+				call, ok := ex.Tuple.(*ssa.Call)
+				if !ok {
+					return false
+				}
+				cal := call.Call.StaticCallee()
+				if cal == nil {
+					return false
+				}
+				if ex.Index == 0 && cal.Name() == "get" && cal.Signature.Recv() != nil && isNamed(cal.Signature.Recv().Type(), "starlark", "Int") {
+					return true
+				}
+				// a package-local helper handing on the small arms (e.g. smallOperands(x, y))
+				if cal.Blocks != nil && fnPkgPath(cal) == fnPkgPath(fn) {
+					okAll, any := true, false
+					eachInstr(cal, func(in2 ssa.Instruction) {
+						if r, ok := in2.(*ssa.Return); ok && ex.Index < len(r.Results) {
+							any = true
+							if k, isK := r.Results[ex.Index].(*ssa.Const); isK && k.Value != nil {
+								return
+							}
+							if !fromGet(r.Results[ex.Index], depth+1) {
+								okAll = false
+							}
+						}
+					})
+					return okAll && any
 				}
 				return false
 			}
-			if fromGet(b.X) && fromGet(b.Y) {
+			if fromGet(b.X, 0) && fromGet(b.Y, 0) {
 				return
 			}
 			// does the difference decide the result? (compared with 0, returned, or passed to a sign function)
